@@ -163,10 +163,54 @@ func c14Grants(c *mc.Ctx) {
 		Close: func(x mc.Instance) { x.(*c14GrantInst).w.R.Close() },
 	}
 	b.Run()
+	c14GrantRevert(c)
+	c.Set("rule_grant_revert", "gas price 50000: the deciding approving vote of an admin registration is cast by an admin who has moved its balance away and cannot pay the fee; the vote is undone as a whole: the sum of all balances does not grow and the candidate keeps no grant")
 	c.Set("rule_grants", "BFS over governance histories around admins (register a governance admin / an audit admin bound to an audit node, freeze, activate, logout, logout of the bound node, bind to another node; each proposal approved or rejected; gas price 0): per step the sum of all persisted balances grows only in the step that approves the registration of an admin, by exactly the configured grant, once per admin")
 }
 
+// c14GrantRevert: the approval that pays the grant is part of a transaction that fails
+// afterwards (the deciding vote is cast by an admin who cannot pay the fee): the whole vote is
+// undone, so no grant may be left behind. Gas price 50000.
+func c14GrantRevert(c *mc.Ctx) {
+	w := fix.BaseWorld(fix.Options{})
+	defer w.R.Close()
+	rep := map[string]interface{}{"engine": "c14.grantrevert"}
+	cand := fix.Addr(c14GovNew)
+	a0 := fix.AdminKeys[0]
+	// the candidate's account exists before the vote (otherwise undoing its creation hides a credit)
+	w.Must(w.Block(fix.Transfer(a0, w.N.Next(a0), cand, "5")))
+	res := w.Must(w.Block(w.InvokeTx(a0, constant.RoleContractAddr, "RegisterRole", pb.String(cand.String()), pb.String("governanceAdmin"), pb.String(""), pb.String("r"))))
+	id := fix.ProposalID(res.Receipts[0])
+	w.Must(w.Block(w.VoteTx(0, id, "approve")))
+	w.Must(w.Block(w.VoteTx(1, id, "approve")))
+	// admin 2 moves its balance away: what is left after this transfer's fee is 100 units
+	k2 := fix.AdminKeys[2]
+	bal := new(big.Int).Set(w.R.Accounts()[fix.Addr(k2).String()].Balance)
+	amt := new(big.Int).Sub(new(big.Int).Sub(bal, c14FeeT), big.NewInt(100))
+	if amt.Sign() <= 0 {
+		c.HarnessError("c14 grant revert: admin 2 has no balance to move")
+		return
+	}
+	w.Must(w.Block(fix.Transfer(k2, w.N.Next(k2), fix.Addr(fix.KUser2), amt.String())))
+	before := w.R.TotalBalance()
+	candBefore := new(big.Int).Set(w.R.Accounts()[cand.String()].Balance)
+	r := w.Block(w.VoteTx(2, id, "approve"))
+	c.Add("grant_revert_scenarios", 1)
+	if r.Receipts[0].IsSuccess() {
+		c.HarnessError("c14 grant revert: the vote of an admin who cannot pay the fee succeeded - scenario not reached")
+		return
+	}
+	after := w.R.TotalBalance()
+	if after.Cmp(before) > 0 {
+		c.Report("C14|grant|value-created-by-a-reverted-approval", fmt.Sprintf("the deciding approving vote failed (its sender cannot pay the fee) and was undone, but the sum of all balances grew by %s", new(big.Int).Sub(after, before)), rep)
+	}
+	if cb := w.R.Accounts()[cand.String()].Balance; cb.Cmp(candBefore) != 0 {
+		c.Report("C14|grant|candidate-keeps-the-grant-of-a-reverted-approval", fmt.Sprintf("the candidate's balance changed %s -> %s although the approving vote was undone", candBefore, cb), rep)
+	}
+}
+
 func init() {
+	Replayers["c14.grantrevert"] = func(c *mc.Ctx, r map[string]interface{}) { c14GrantRevert(c) }
 	Replayers["c14.grantmc"] = func(c *mc.Ctx, r map[string]interface{}) {
 		in := newC14GrantInst()
 		for _, op := range strList(r["ops"]) {
